@@ -27,6 +27,7 @@ type HSpec struct {
 	MergeOff  bool           `json:"merge_off"`
 	Automaton int            `json:"automaton"` // >0: state-merged exploration, value = cap on abstract states
 	Corpus    bool           `json:"corpus"`    // translator validation on the repository's test corpus
+	CorpusLoop string        `json:"corpus_loop"` // "Schema" / "Enum" / "Doc": run once per corpus text of that kind
 }
 
 type CSpec struct {
@@ -213,6 +214,8 @@ func runCheck(args []string) int {
 		}
 		if h.Automaton > 0 {
 			r = exploreAutomaton(r, h.Automaton)
+		} else if h.CorpusLoop != "" {
+			r = exploreCorpusLoop(r, h.CorpusLoop)
 		} else {
 			r.Explore()
 		}
